@@ -294,24 +294,32 @@ def wrappers(ctx, rng, do_model):
                 ctx.mismatch(r['op'], r, a, b)
 
 
-def define_checks(ctx, rng):
-    """model completion (implementation vs definition)"""
+def define_checks(ctx, rng, do_model=False):
+    """model completion (implementation vs definition).  The definition covers every don't-care
+    entry and, in about half of the cases, also some entries the model already defines (with
+    random values): those must be ignored — the completed function agrees with the model wherever
+    it was defined."""
     from cirbo.core.truth_table import TruthTableModel
     from cirbo.core.python_function import PyFunctionModel
     from cirbo.core.logic import DontCare
     from cirbo.core.utils import input_to_canonical_index
+    reqs, expect = [], []
     for k in range(ctx.scale(150, 3000)):
         n = rng.randint(1, 3); m = rng.randint(1, 2)
         N = 2 ** n
         rows = [[rng.choice([False, True, DontCare]) for _ in range(N)] for _ in range(m)]
         xs = list(itertools.product((False, True), repeat=n))
-        defn = {}
+        over = rng.random() < 0.5
+        items = []
         for o in range(m):
             for i, x in enumerate(xs):
-                if rows[o][i] == DontCare:
-                    defn[(x, o)] = rng.random() < 0.5
+                if rows[o][i] == DontCare or (over and rng.random() < 0.5):
+                    items.append(((x, o), rng.random() < 0.5))
+        rng.shuffle(items)
+        defn = dict(items)
         want = [[rows[o][i] if rows[o][i] != DontCare else defn[(xs[i], o)] for i in range(N)] for o in range(m)]
-        ctx.case(json.dumps(['define', n, [[('*' if v == DontCare else int(v)) for v in r] for r in rows]]))
+        srows = [''.join('*' if v == DontCare else ('1' if v else '0') for v in r) for r in rows]
+        ctx.case(json.dumps(['define', n, srows, over]), over)
         try:
             t = TruthTableModel([list(r) for r in rows]).define(dict(defn))
             got1 = [list(r) for r in t.get_truth_table()]
@@ -319,16 +327,33 @@ def define_checks(ctx, rng):
             pm = PyFunctionModel(lambda x: list(tcols[input_to_canonical_index(x)]), input_size=n, output_size=m)
             got2 = [list(r) for r in pm.define(dict(defn)).get_truth_table()]
         except Exception as e:  # noqa: BLE001
-            ctx.violation('define.raises', f'define raised {err_name(e)}', input={'n': n})
+            if not do_model:
+                ctx.violation('define.raises', f'define raised {err_name(e)}', input={'n': n, 'rows': srows})
             continue
-        if got1 != want or got2 != want:
-            ctx.violation('define.wrong', 'completed model disagrees with model/definition', input={'n': n, 'want': want, 'tt': got1, 'py': got2})
+        if do_model:
+            reqs.append({'op': 'define', 'rows': srows,
+                         'defn': [[''.join('1' if b else '0' for b in x), o, bool(v)] for ((x, o), v) in defn.items()]})
+            expect.append({'ok': [''.join('1' if v else '0' for v in r) for r in got1]})
+        elif got1 != want or got2 != want:
+            key = 'define.overwrites_defined' if over and all(
+                got1[o][i] == want[o][i] for o in range(m) for i in range(N) if rows[o][i] == DontCare) else 'define.wrong'
+            ctx.violation(key, 'completed model disagrees with the model where it was defined, or with the definition elsewhere',
+                          input={'n': n, 'rows': srows, 'defn': [[list(map(int, x)), o, bool(v)] for ((x, o), v) in defn.items()],
+                                 'want': want, 'tt': got1, 'py': got2})
+    if do_model and reqs:
+        model = ctx.driver.ask_many(reqs)
+        for r, a, b in zip(reqs, expect, model):
+            if a == b:
+                ctx.count('agree:define')
+            else:
+                ctx.mismatch('define', r, a, b)
 
 
 def correspondence(ctx):
     rng = ctx.rng('corr')
     run(ctx, rng, True)
     wrappers(ctx, rng, True)
+    define_checks(ctx, rng, True)
 
 
 def search(ctx):
